@@ -59,6 +59,10 @@ def enumerate_cases(tier, seed):
         yield ("system", {"comps": comps, "fr": fr, "mult": mult[0], "spell": "exp"})
 
 
+class ForeignMolecule(Exception):
+    """a yielded molecule belongs to no declared component"""
+
+
 class NotOnePickPerMolecule(Exception):
     """the implementation does not consume exactly one component pick per yielded molecule: the count-vector state space
     does not describe it; no verdict is given (reported as capped), never an alarm"""
@@ -147,7 +151,7 @@ def _eval(kind, data):
             for mg in sysobj.generator:
                 c = canon.index(Chem.CanonSmiles(mg.smiles)) if Chem.CanonSmiles(mg.smiles) in canon else None
                 if c is None:
-                    raise HarnessError(f"yielded molecule {mg.smiles} is not a member")
+                    raise ForeignMolecule(f"{text}: the ensemble contains {mg.smiles}, which is an instance of none of the declared components (its mass counts towards no declared share)")
                 if pending[0] is None:
                     raise NotOnePickPerMolecule("a molecule was yielded without a preceding decision")
                 if pending[0] in amap and amap[pending[0]] != c:
@@ -292,6 +296,12 @@ def _eval(kind, data):
 def eval_case(kind, data):
     try:
         return _eval(kind, data)
+    except ForeignMolecule as e:
+        res = new_result()
+        viol(res, "C14|molecule-of-no-declared-component-in-the-ensemble", str(e), {"comps": data["comps"], "fr": data["fr"]})
+        res["nontrivial"] = [str(data["comps"]), data["mult"]]
+        res["traces"] = 1
+        return res
     except NotOnePickPerMolecule as e:
         res = new_result()
         res["capped"] = True
